@@ -98,6 +98,15 @@ def run_single(ctx, rng, N):
         a = fitted(make, da, center=True, standardize=True)
         b = fitted(make, as_da(X * sc + c), center=True, standardize=True)
         same_model(ctx, "C08:%s:affine" % cls, "%s(standardize=True) under positive per-feature affine rescaling" % cls, a, b, dict(replay, scale=sc, shift=c), tol=1e-5)
+        # ---- data in small units: every standard deviation stays above the 1.2e-7 floor but far below 1
+        sc2 = 10.0 ** rng.uniform(-6.0, -3.0, size=(nlat, nlon))
+        sd = np.std(np.real(X), axis=0) * sc2
+        if np.all(sd > 5e-7):
+            ctx.case(("small-units", cls, n, nlat, nlon, i), nontrivial=True, tag="%s/affine-small-units" % cls,
+                     sample=dict(cls=cls, test="affine-small-units", shape=[n, nlat, nlon], min_std=float(sd.min())))
+            b2 = fitted(make, as_da(X * sc2), center=True, standardize=True)
+            same_model(ctx, "C08:%s:affine-small-units" % cls, "%s(standardize=True) under per-feature rescaling to standard deviations %.2g..%.2g" % (cls, sd.min(), sd.max()),
+                       a, b2, dict(replay, scale=sc2), tol=1e-5)
         # ---- weights = pre-multiplied data (standardisation off); weights after standardisation (on)
         w = 0.2 + rng.random((nlat, nlon)) * 3
         wd = xr.DataArray(w, dims=("lat", "lon"), coords={"lat": da.lat, "lon": da.lon})
